@@ -12,7 +12,7 @@
 From Coq Require Import List Arith Lia PeanoNat Bool ZArith QArith Qcanon.
 From PV Require Import Base.Semiring Base.Ravel Base.FinSum Base.RefFactor
   C04.Tensor C04.TensorFacts C04.Model C04.Spec C04.ProofsProd C04.ProofsMarg C04.ProofsAlg C04.ProofsStore C04.ProofsNamed
-  C04.ProofsReduce C04.ProofsAlign C04.ProofsDivSum C04.ProofsAlg2 C04.ProofsNorm C04.ProofsEq.
+  C04.ProofsReduce C04.ProofsAlign C04.ProofsDivSum C04.ProofsAlg2 C04.ProofsNorm C04.ProofsEq C04.ProofsDot.
 Import ListNotations.
 Local Close Scope Qc_scope.
 Local Close Scope Q_scope.
@@ -318,3 +318,27 @@ Proof.
   - exists 1, 2, 3, 4, [0], [2], (tbuild [2] (fun _ => 1%Qc)), [(0, 0)]. repeat split. intros p [<-|[]]. cbn. lia.
   - eexists. eexists. split; [vm_compute; reflexivity|reflexivity].
 Qed.
+
+(* FactorDict.dot (anchor file pgmpy/factors/FactorDict.py): per clique, (self[c] * other[c]).values.sum() is the sum
+   over ALL assignments of the clique's variables of f(x)*g(x) (for semirings whose laws are unguarded, e.g. the
+   sum-product semiring over Qc: [forall x, ok x]), hence independent of the order in which either operand lists
+   the clique's variables and of the product's set order; the same for the whole dictionary sum. *)
+Theorem C04_factordict_dot_pointwise (R : csr) (card : var -> nat) (all_ok : forall x : R, ok x)
+  (f g : dfactor R) o x a0 :
+  dwf card f -> dwf card g -> valid card a0 -> dot1 R f g o = Ok x ->
+  NoDup o /\ (forall v, In v o <-> In v (dvars f) \/ In v (dvars g)) /\
+  x = sum_over o (map card o) (fun b => mul (deval zero f b) (deval zero g b)) a0.
+Proof. exact (dot1_spec R card all_ok f g o x a0). Qed.
+Print Assumptions C04_factordict_dot_pointwise.
+
+Theorem C04_factordict_dot_axis_order_irrelevant (R : csr) (card : var -> nat) (all_ok : forall x : R, ok x)
+  ps ps' a0 : valid card a0 -> Forall2 (clique_rel R card) ps ps' ->
+  forall acc x x', fd_dot_go R acc ps = Ok x -> fd_dot_go R acc ps' = Ok x' -> x = x'.
+Proof. exact (factordict_dot_axis_order_irrelevant R card all_ok ps ps' a0). Qed.
+Print Assumptions C04_factordict_dot_axis_order_irrelevant.
+
+Example C04_factordict_dot_nonvacuous :
+  exists x, factordict_dot Qc_sum_csr
+     [({| dvars := [0; 1]; dcard := [2; 3]; dstates := []; dvals := tbuild [2; 3] (fun _ => 1%Qc) |},
+       {| dvars := [1; 0]; dcard := [3; 2]; dstates := []; dvals := tbuild [3; 2] (fun _ => 1%Qc) |}, [0; 1])] = Ok x.
+Proof. eexists. vm_compute. reflexivity. Qed.
